@@ -175,6 +175,7 @@ def decOp (s : String) : Option (Op × List String) :=
   | ["revcomp"] => some (.revcomp, [])
   | ["compress"] => some (.compress, [])
   | ["unalign"] => some (.unalign, [])
+  | ["setalpha", a] => (parseInt? a).map fun v => (.setAlpha v, [])
   | ["rmgapsites", f, e] => do
     let (x, y) ← frac f
     pure (.rmGapSites x y (decBool e), [])
